@@ -649,6 +649,39 @@ func (st *Stack) compactRange(first, last int, expiration *LogExpirationConfig) 
 
 	defer lockFile.Close()
 
+	// The list was unlocked while we merged: other processes may have
+	// added tables on top or compacted other ranges. Replace our
+	// tables in the list as it is now, not as we remember it.
+	current, err := st.readNames()
+	if err != nil {
+		if tmpTable != "" {
+			os.Remove(tmpTable)
+		}
+		return false, err
+	}
+	pos := -1
+	for i, nm := range current {
+		if nm == st.stack[first].name {
+			pos = i
+			break
+		}
+	}
+	if pos >= 0 {
+		for i := first; i <= last; i++ {
+			if pos+i-first >= len(current) || current[pos+i-first] != st.stack[i].name {
+				pos = -1
+				break
+			}
+		}
+	}
+	if pos < 0 {
+		// cannot happen while we hold the table locks
+		if tmpTable != "" {
+			os.Remove(tmpTable)
+		}
+		return false, nil
+	}
+
 	fn := formatName(
 		st.stack[first].MinUpdateIndex(),
 		st.stack[last].MaxUpdateIndex())
@@ -663,17 +696,13 @@ func (st *Stack) compactRange(first, last int, expiration *LogExpirationConfig) 
 	}
 
 	var names []string
-	for i := 0; i < first; i++ {
-		names = append(names, st.stack[i].name)
-	}
+	names = append(names, current[:pos]...)
 
 	if !emptyTable {
 		names = append(names, fn)
 	}
 
-	for i := last + 1; i < len(st.stack); i++ {
-		names = append(names, st.stack[i].name)
-	}
+	names = append(names, current[pos+last-first+1:]...)
 
 	if _, err := lockFile.Write([]byte(strings.Join(names, "\n"))); err != nil {
 		os.Remove(destTable)
